@@ -1,5 +1,5 @@
-"""The REAL composition (SystemBuilder: engine + request channel + ExecutionManager + MockExchange behind
-MockExecution + account feed, HistoricalClock, balances seeded through the builder) driven by
+"""The REAL composition (SystemBuilder: engine + TWO exchanges, each with its own request channel, ExecutionManager and
+MockExchange behind a MockExecution client + merged account feed, HistoricalClock, balances seeded through the builder) driven by
 harness/src/bin/system.rs and validated against spec/BarterSystem.tla (requests answered exactly once,
 in flight => resolved at quiescence, the disconnect notice of a killed execution link) and
 spec/Freshness.tla (seeded and exchange-delivered balances). One set of runs, several verdicts:
@@ -7,7 +7,9 @@ each property reports only its own tags."""
 import json
 
 C07_TAGS = {"request_never_answered", "answer_without_request", "in_flight_never_resolved"}
-C14_TAGS = {"link_down_notice", "link_down_count"}
+C14_TAGS = {"link_down_notice", "link_down_count", "conn_view"}
+# an account event that comes back in the name of another exchange than the one the request was addressed to
+C04_TAGS = {"wrong_exchange"}
 
 
 def run(ctx, own_tags, runs=None, fresh=False):
